@@ -86,8 +86,14 @@ def check_writer(tier):
     return n, fails
 
 
+def empty_batch():
+    """a well-formed batch without records (what a broker keeps after compaction removed them all)"""
+    post = RS.encode_post(0, 4, 1503229838908, 1503229838908, 7, 1, 0, 100, [])
+    return RS.be(8, 100) + RS.be(4, len(post) + 9) + RS.be(4, 3) + b"\x02" + RS.be(4, RS.crc32c_ref(post), False) + post
+
+
 def reference_batches(tier):
-    return [RS.encode_new_batch(b) for b in batches(tier)][:: (4 if tier == "quick" else 1)]
+    return [RS.encode_new_batch(b) for b in batches(tier)][:: (4 if tier == "quick" else 1)] + [empty_batch()]
 
 
 def check_reader(tier):
